@@ -26,12 +26,15 @@ func init() {
 		ruleORD7b(w, r)
 		ruleORD1b(w, r)
 		ruleCDC5(w, r)
+		ruleCDC6(w, r) // a torn first frame is repaired, not a reason to refuse start-up
 	})
 	register("C14", "no acknowledged write lost to snapshot/compaction/shutdown", func(w *World, r *Report) {
 		ruleORD1(w, r)
 		ruleORD2(w, r)
 		ruleORD2c(w, r)
+		ruleORD1b(w, r)
 		ruleORD4(w, r)
+		ruleORD4b(w, r)
 		ruleORD5(w, r)
 		ruleORD6(w, r)
 		ruleORD8(w, r)
@@ -49,6 +52,7 @@ func init() {
 		ruleCDC4(w, r, nil)
 		ruleCDC8(w, r)
 		ruleORD2c(w, r)
+		ruleORD1b(w, r) // VImport's log bypass and VCompress rely on SaveSnapshot really saving
 	})
 }
 
@@ -97,6 +101,10 @@ func init() {
 		ruleGRDrmw(w, r, lr)
 		ruleLCK3b(w, r, lr)
 		ruleLCK6(w, r)
+		ruleLCK7(w, r, lr)
+		ruleLCK8(w, r)
+		ruleORD8b(w, r)
+		ruleGRDclosed(w, r, lr)
 		ruleORD6(w, r)
 	})
 }
@@ -110,6 +118,7 @@ func init() {
 		ruleSIB5(w, r)
 		lr := w.lockAnalysis()
 		ruleGRDrmw(w, r, lr)
+		ruleLCK8(w, r) // an acknowledged insert must not vanish when the node array grows
 	})
 }
 
@@ -156,10 +165,12 @@ func init() {
 		ruleGRDclamp(w, r)
 		ruleTBLprec(w, r)
 		ruleGRDown(w, r)
+		ruleGRDownvec(w, r)
 		ruleGRDslot(w, r)
 		lr := w.lockAnalysis()
+		ruleGRDclosed(w, r, lr)
 		ruleLCK5f(w, r, lr, func(g string) bool {
-			return strings.HasPrefix(g, "mmap.VectorArena.") || strings.HasPrefix(g, "distance.Quantizer.")
+			return strings.HasPrefix(g, "mmap.VectorArena.") || strings.HasPrefix(g, "distance.Quantizer.") || g == "hnsw.Index.activeMu"
 		})
 	})
 }
@@ -193,5 +204,8 @@ func init() {
 		ruleSIBcap(w, r)
 		ruleGRDkeep(w, r)
 		ruleSIBsorted(w, r)
+		ruleGRDtraverse(w, r)
+		ruleGRDelect(w, r)
+		ruleGRDsmallgraph(w, r)
 	})
 }
